@@ -3,6 +3,10 @@ extern crate std;
 #[allow(unused_imports)]
 use std::{vec, vec::Vec};
 use super::*;
+#[allow(unused_imports)]
+use embedded_hal::digital::OutputPin;
+#[allow(unused_imports)]
+use crate::interface::{Interface, InterfaceKind};
 use crate::vk_support::*;
 use core::cell::Cell;
 use embedded_hal::digital;
